@@ -73,7 +73,7 @@ class Topology:
         mod = types.ModuleType(self.name)
         mod.__file__ = f"/verif/out/generated/{self.name}.py"
         sys.modules[self.name] = mod
-        exec(compile(self.source, mod.__file__, "exec"), mod.__dict__)
+        exec(compile(self.source, mod.__file__, "exec", dont_inherit=True), mod.__dict__)
         self.module = mod
         return mod
 
